@@ -83,7 +83,7 @@ def run_group(pid, names, tier, repo, verif, build):
             t0 = time.time()
             try:
                 p = subprocess.run(cmd, cwd=repo, env=env, stdout=subprocess.PIPE, stderr=subprocess.STDOUT, text=True,
-                                   timeout=3600 if tier == 'thorough' else 600)
+                                   timeout=3600 if tier == 'thorough' else 1500)
                 out, rc, to = p.stdout, p.returncode, False
             except subprocess.TimeoutExpired as e:
                 out = (e.stdout or b'').decode(errors='replace') if isinstance(e.stdout, bytes) else (e.stdout or '')
